@@ -233,7 +233,7 @@ def mutate_line(rng, line):
         return " ".join(toks)
     if k == 2 and toks:
         j = rng.randrange(len(toks))
-        toks[j] = rng.choice(["foo", "x32", "99999999999", "0x", "(", ")", "t7", "-", "1a", "a0:", ".word", "'", '"'])
+        toks[j] = rng.choice(["foo", "x32", "99999999999", "0x", "(", ")", "t7", "-", "1a", "a0:", ".word", "'", '"', ";", "?", "$", "@", "???", "\u00e9", toks[j] + ";", toks[j] + "?"])
         return " ".join(toks)
     if k == 3:
         return rng.choice(["frob", "addd", "mov", "push"]) + " " + " ".join(toks[1:])
@@ -443,7 +443,11 @@ def conforming(rng, nfuncs=None, depth=2, recursion=True):
             continue
         slots = ["ra"] + fn.saved
         frame = 4 * len(slots) + 4 * rng.randrange(0, 3)
-        out.append("addi sp, sp, -%d" % frame)
+        via_reg = rng.random() < 0.15      # the frame is allocated with `sub sp, sp, t` / freed with `add sp, sp, t` (large frames are)
+        if via_reg:
+            out += ["li t6, %d" % frame, "sub sp, sp, t6"]
+        else:
+            out.append("addi sp, sp, -%d" % frame)
         offs = {}
         for i, r in enumerate(slots):
             offs[r] = 4 * i
@@ -471,11 +475,11 @@ def conforming(rng, nfuncs=None, depth=2, recursion=True):
             body(fn, [], max(depth - 1, 0), out)
             for r in slots:
                 out.append("lw %s, %d(sp)" % (r, offs[r]))
-            out += ["addi sp, sp, %d" % frame, "ret", "%s:" % alt]
+            out += (["li t6, %d" % frame, "add sp, sp, t6"] if via_reg else ["addi sp, sp, %d" % frame]) + ["ret", "%s:" % alt]
             body(fn, [], max(depth - 1, 0), out)
         for r in slots:
             out.append("lw %s, %d(sp)" % (r, offs[r]))
-        out.append("addi sp, sp, %d" % frame)
+        out += ["li t6, %d" % frame, "add sp, sp, t6"] if via_reg else ["addi sp, sp, %d" % frame]
         out.append("ret")
         lines += out
     return lines, dict(functions=[f.name for f in fns])
@@ -802,9 +806,13 @@ def csr_mem_prog(rng):
     """memory reached through a base address held in a CSR (trap-handler save areas) and through sp, at negative,
     zero, positive and extreme offsets: every spelling of a memory-location key appears in the value maps"""
     L = ["main:"]
-    csr = rng.choice(["uscratch", "0x40", "64", "utvec", "0x5"])
+    csr = rng.choice(["uscratch", "0x40", "64", "utvec", "0x5", "4160", "0x1040", "4096", "65600", "0xFFF"])
     base = rng.choice(["t0", "t1", "a3", "s2"])
     L.append(rng.choice(["csrrw %s, %s, zero", "csrr %s, %s", "csrrs %s, %s, zero"]) % (base, csr))
+    if rng.random() < 0.4:
+        # a second CSR whose number agrees with the first in its low 12 bits, holding another value
+        other = rng.choice(["64", "4160", "8256", "0x40"])
+        L += ["li a4, %d" % rng.randrange(1, 9), "csrrw zero, %s, a4" % other, "li a5, %d" % rng.randrange(10, 19), "csrrw zero, %s, a5" % rng.choice(["64", "4160", "0x2040"])]
     offs = [0, -4, 4, 8, -8, -2048, 2047, rng.randrange(-2048, 2048), rng.randrange(-64, 64) * 4]
     for _ in range(rng.randrange(1, 6)):
         o = rng.choice(offs)
